@@ -1,151 +1,3 @@
-mod core;
-mod exec;
-mod vgen;
-mod hist;
-mod isolate;
-mod model;
-mod props2;
-mod props_crash;
-mod props_damage;
-mod props_db;
-mod props_search;
-mod props_ser;
-mod props_storage;
-mod query;
-mod val;
-
-use crate::core::{Ctx, Tier};
-
-#[global_allocator]
-static ALLOC: isolate::Capped = isolate::Capped;
-
-/// Properties whose campaigns run in isolated child processes: (campaign name whose case type
-/// the saved failing input has, per-case watchdog in seconds).
-fn isolated(id: &str) -> Option<(&'static str, u64)> {
-    if std::env::var("VERIF_NO_ISOLATION").is_ok() {
-        return None;
-    }
-    match id {
-        "C01" => Some(("c01-crash", 60)),
-        "C02" => Some(("c02-crash", 120)),
-        "C03" => Some(("c03-crash", 120)),
-        "C04" => Some(("c04-storage", 60)),
-        "C07" => Some(("c07-damage", 30)),
-        "C21" => Some(("c21-deserialize", 30)),
-        "C32" => Some(("c32-fault", 60)),
-        _ => None,
-    }
-}
-
-fn usage() -> ! {
-    eprintln!("usage: vcheck <property id> [--tier quick|thorough] [--replay <file>]");
-    std::process::exit(2)
-}
-
 fn main() {
-    let args: Vec<String> = std::env::args().collect();
-    if args.len() < 2 {
-        usage();
-    }
-    let id = args[1].to_uppercase();
-    let mut tier = match std::env::var("VERIF_TIER").as_deref() {
-        Ok("thorough") => Tier::Thorough,
-        _ => Tier::Quick,
-    };
-    let mut replay: Option<String> = None;
-    let mut i = 2;
-    while i < args.len() {
-        match args[i].as_str() {
-            "--tier" => {
-                i += 1;
-                tier = match args.get(i).map(|s| s.as_str()) {
-                    Some("quick") => Tier::Quick,
-                    Some("thorough") => Tier::Thorough,
-                    _ => usage(),
-                };
-            }
-            "--replay" => {
-                i += 1;
-                replay = args.get(i).cloned();
-            }
-            _ => usage(),
-        }
-        i += 1;
-    }
-    let seed: u64 = std::env::var("VERIF_SEED")
-        .ok()
-        .and_then(|s| s.parse::<i64>().ok())
-        .map(|v| v as u64)
-        .unwrap_or(0);
-    core::install_panic_hook();
-    isolate::enable_cap_from_env();
-    if let Some(path) = replay {
-        std::process::exit(replay_one(&id, &path));
-    }
-    let mut ctx = Ctx::new(&id, tier, seed);
-    if ctx.child.is_none() {
-        if let Some((campaign, watchdog)) = isolated(&id) {
-            isolate::supervise(&mut ctx, campaign, watchdog, 2);
-            std::process::exit(ctx.finish());
-        }
-    }
-    match id.as_str() {
-        "C01" => props_storage::c01(&mut ctx),
-        "C02" => props_crash::c02(&mut ctx),
-        "C03" => props_crash::c03(&mut ctx),
-        "C32" => props_crash::c32(&mut ctx),
-        "C07" => props_damage::c07(&mut ctx),
-        "C04" => props_storage::c04(&mut ctx),
-        "C05" => props2::c05(&mut ctx),
-        "C06" => props2::c06(&mut ctx),
-        "C12" => props2::c12(&mut ctx),
-        "C13" => props2::c13(&mut ctx),
-        "C19" => props2::c19(&mut ctx),
-        "C20" => props_ser::c20(&mut ctx),
-        "C21" => props_ser::c21(&mut ctx),
-        "C22" => props_ser::c22(&mut ctx),
-        "C08" => props_db::c08(&mut ctx),
-        "C09" => props_db::c09(&mut ctx),
-        "C10" => props_db::c10(&mut ctx),
-        "C11" => props_db::c11(&mut ctx),
-        "C14" => props_search::c14(&mut ctx),
-        "C15" => props_search::c15(&mut ctx),
-        "C16" => props_search::c16(&mut ctx),
-        "C17" => props_search::c17(&mut ctx),
-        "C18" => props_search::c18(&mut ctx),
-        _ => {
-            eprintln!("unknown property {id}");
-            std::process::exit(2);
-        }
-    }
-    std::process::exit(ctx.finish());
-}
-
-fn replay_one(id: &str, path: &str) -> i32 {
-    match id {
-        "C08" | "C09" | "C10" | "C11" => props_db::replay(path),
-        "C01" => props_storage::c01_replay(path),
-        "C02" => props_crash::c02_replay(path),
-        "C03" => props_crash::c03_replay(path),
-        "C32" => props_crash::c32_replay(path),
-        "C07" => props_damage::c07_replay(path),
-        "C04" => props_storage::c04_replay(path),
-        "C05" => props2::c05_replay(path),
-        "C06" => props2::c06_replay(path),
-        "C12" => props2::c12_replay(path),
-        "C13" => props2::c13_replay(path),
-        "C19" => props2::c19_replay(path),
-        "C20" => props_ser::c20_replay(path),
-        "C21" => props_ser::c21_replay(path),
-        "C22" => props_ser::c22_replay(path),
-        "C14" => props_search::c14_replay(path),
-        "C15" => props_search::c15_replay(path),
-        "C16" => props_search::c16_replay(path),
-        "C17" => props_search::c17_replay(path),
-        "C18" => props_search::c18_replay(path),
-        _ => {
-            eprintln!("no replay for {id}");
-            2
-        }
-    }
+    vcheck::main_entry()
 }
